@@ -60,6 +60,7 @@ type loopInfo struct {
 	body    map[*ssa.BasicBlock]bool
 	ordinal int
 	varTerm []string // decreases terms evaluated at header
+	frameHeaps []string
 	phiVals map[*ssa.Phi]Val
 }
 
@@ -98,6 +99,9 @@ type Exec struct {
 	trustedUsed   map[string]bool
 	oblNames map[string]int
 	tagIDs   map[string]int
+	topMods  []modLoc
+	hasMods  bool
+	inlineDepth int
 }
 
 func newExec(eng *Engine, fn *ssa.Function, con *Contract) *Exec {
@@ -168,6 +172,12 @@ func (x *Exec) assume(guard, f string) {
 }
 
 func (x *Exec) oblige(name, kind, guard, f string, cl *Clause, text string) {
+	if x.inlineDepth > 0 && kind == "nopanic" {
+		// safety obligations of an inlined callee body belong to the callee (checked when it is under
+		// contract itself); at the call site they are assumed
+		x.assume(guard, f)
+		return
+	}
 	if f == "true" {
 		// still count trivial obligations? keep them: they are discharged trivially.
 	}
@@ -324,7 +334,8 @@ func (x *Exec) declSub(fn string) {
 	x.declareFun(fn+"$inv", "(Int) Int")
 	x.tagIDs[fn] = len(x.tagIDs) + 1
 	x.declareFun("addrkind", "(Int) Int")
-	x.emitGlobal(fmt.Sprintf("(assert (forall ((p Int)) (! (and (< (%s p) 0) (= (%s$inv (%s p)) p) (= (addrkind (%s p)) %d)) :pattern ((%s p)))))", fn, fn, fn, fn, x.tagIDs[fn], fn))
+	x.declRoot()
+	x.emitGlobal(fmt.Sprintf("(assert (forall ((p Int)) (! (and (< (%s p) 0) (= (%s$inv (%s p)) p) (= (addrkind (%s p)) %d) (= (root (%s p)) (root p))) :pattern ((%s p)))))", fn, fn, fn, fn, x.tagIDs[fn], fn, fn))
 }
 
 func (x *Exec) declEaddr(fn string) {
@@ -336,11 +347,29 @@ func (x *Exec) declEaddr(fn string) {
 	x.declareFun(fn+"$i", "(Int) Int")
 	x.tagIDs[fn] = len(x.tagIDs) + 1
 	x.declareFun("addrkind", "(Int) Int")
-	x.emitGlobal(fmt.Sprintf("(assert (forall ((a Int) (i Int)) (! (and (< (%s a i) 0) (= (%s$a (%s a i)) a) (= (%s$i (%s a i)) i) (= (addrkind (%s a i)) %d)) :pattern ((%s a i)))))", fn, fn, fn, fn, fn, fn, x.tagIDs[fn], fn))
+	x.declRoot()
+	x.emitGlobal(fmt.Sprintf("(assert (forall ((a Int) (i Int)) (! (and (< (%s a i) 0) (= (%s$a (%s a i)) a) (= (%s$i (%s a i)) i) (= (addrkind (%s a i)) %d) (= (root (%s a i)) a)) :pattern ((%s a i)))))", fn, fn, fn, fn, fn, fn, x.tagIDs[fn], fn, fn))
 }
 
 // load a value of type t from loc
 func (x *Exec) load(st *State, loc *Loc, t types.Type) Val {
+	v := x.load0(st, loc, t)
+	// well-typed memory: integer fields hold values of their type, slice headers are well formed.
+	// Only stated for ground addresses (terms with quantifier-bound variables contain "$q").
+	switch vv := v.(type) {
+	case Sc:
+		if kindOf(t) == KInt && !strings.Contains(vv.T, "$q") {
+			x.assumeTyped("true", t, v)
+		}
+	case SliceV:
+		if !strings.Contains(vv.Arr+vv.Len, "$q") {
+			x.assumeTyped("true", t, v)
+		}
+	}
+	return v
+}
+
+func (x *Exec) load0(st *State, loc *Loc, t types.Type) Val {
 	switch kindOf(t) {
 	case KInt, KPtr, KBool, KStr, KReal:
 		c := x.comps(t)[0]
@@ -1296,6 +1325,12 @@ func (x *Exec) unop(fr *Frame, st *State, reach string, i *ssa.UnOp) {
 				x.assume(reach, sx("<=", s.T, st.alc))
 			}
 		}
+		x.assumeAllocated(reach, st, v)
+		if g, ok := i.X.(*ssa.Global); ok {
+			if ob, ok := g.Object().(*types.Var); ok && isSentinel(ob) {
+				v = x.sentinel(ob)
+			}
+		}
 		x.set(fr, i, v)
 	case token.NOT:
 		x.set(fr, i, B(not(x.value(fr, i.X).(Sc).T)))
@@ -1398,7 +1433,11 @@ func (x *Exec) binop(fr *Frame, reach string, i *ssa.BinOp) Val {
 	case token.SUB:
 		return I(wrapTerm(rt, sx("-", as.T, bs.T), true))
 	case token.MUL:
-		return I(wrapTerm(rt, sx("*", as.T, bs.T), false))
+		prod := x.define("prod", "Int", sx("*", as.T, bs.T))
+		if lo, hi, ok := intRange(rt); ok {
+			return I(sx("ite", sx("and", sx("<=", bigNum(lo), prod), sx("<=", prod, bigNum(hi))), prod, wrapTerm(rt, prod, false)))
+		}
+		return I(prod)
 	case token.QUO:
 		x.oblige(x.oblName(fr, "nopanic", i.Pos(), "div"), "nopanic", reach, sx("not", sx("=", bs.T, "0")), nil, x.posText(i.Pos())+": division by zero")
 		return I(wrapTerm(rt, goDiv(as.T, bs.T, isUnsigned(rt)), true))
@@ -1878,5 +1917,17 @@ func (x *Exec) sendInstr(fr *Frame, st *State, reach string, i *ssa.Send) {
 		x.setHeap(st, "G$sentval.tag", "(Array Int Int)", sx("store", hr, ch.T, vs.Tag))
 		hr2 := x.heap(st, "G$sentval.ref", "(Array Int Int)")
 		x.setHeap(st, "G$sentval.ref", "(Array Int Int)", sx("store", hr2, ch.T, vs.Ref))
+	}
+}
+
+// every reference stored in memory refers to an object allocated so far (well-typed heap)
+func (x *Exec) assumeAllocated(guard string, st *State, v Val) {
+	switch vv := v.(type) {
+	case SliceV:
+		x.assume(guard, sx("and", sx("<=", "0", vv.Arr), sx("<=", vv.Arr, st.alc)))
+	case StructV:
+		for _, f := range vv.F {
+			x.assumeAllocated(guard, st, f)
+		}
 	}
 }
